@@ -48,10 +48,22 @@ CHECKS = {
             "TAL/TA combinations over consecutive runs: unreachable, undecodable, other-key and expired downloads with and without stored copies; payload under a TAL iff the model finds a matching valid TA.",
             "HTTPS TA download through the simulated transport.",
             "deterministic simulation: TA fault sequences across runs", "§5 C10"),
+    "C22": (ENGINE_A, "exploration",
+            "Engine A in server mode (real Server::process_once keeping a SharedHistory and the real HTTP dispatcher): hostile text reaches the metrics through fake-rsync stderr/stdout (quotes, backslashes, tabs, CR, ESC, NUL, DEL, invalid UTF-8), failing RRDP exchanges and TAL labels set through tal-labels; after every update cycle /api/v1/status must parse as JSON and /metrics must satisfy the Prometheus text exposition grammar (purpose-written checker).",
+            "Only the two documents named by the property are parsed; the plain-text /status page has no grammar.",
+            "deterministic simulation: hostile peer output injection, document grammar oracles", "§5 C22"),
+    "C29": ("B (collector level): real Collector::start().repository() with simulated RRDP server and fake rsync", "fault_enumeration",
+            "The full product fallback policy x RRDP outcome {updated, current, stale, unavailable} x rrdp on/off x rsync on/off x CA with/without rpkiNotify = 96 cells, each executed once; outcomes are produced (failing server with a copy made 10 s or 10 days earlier on the simulated clock, or no copy); observed: fake-rsync invocation for the CA's module and the kind of repository handed out; oracle: the table in the property. Exhaustive. Engine A additionally compares the set of rsync modules and RRDP repositories used in every run with the model.",
+            "Copy expiry relies on best-before lying in [refresh, max(2*refresh, fallback-time)).",
+            "deterministic simulation: exhaustive enumeration of the configuration x fault-outcome table", "§5 C29"),
     "C31": (ENGINE_A, "exploration",
             "Worlds where CA certificates announce caRepository and rpkiNotify URIs on localhost (case variants), IPv4 literals and explicit ports next to ordinary names, with the option on and off; invariant on the transport log of every run: with the option off no fake-rsync invocation and no simulated HTTPS request (other than configured TAL URIs) targets such an authority; with it on they do (non-vacuity probe).",
             "Bracketed IPv6 literals cannot be expressed because rpki-rs rejects them when the URI is built; TAL URIs are configuration, not RPKI data.",
             "deterministic simulation: transport-log invariant over generated hierarchies", "§5 C31"),
+    "C34": (ENGINE_A, "exploration",
+            "Engine A in server mode with refresh in {1,10,600,86400} and min-refresh in {unset,1,60,600,7200}, objects with short and long validity, simulated clock frozen during a cycle: after every successful update cycle refresh_wait() lies in [min-refresh or refresh, max(refresh, min-refresh)] and equals max(expiry - now, min-refresh) when min-refresh is set and the data set expires before now + refresh.",
+            "Expiry is the snapshot's own refresh time (its correctness is C39's subject).",
+            "deterministic simulation with simulated clock: scheduling bound oracle", "§5 C34"),
     "C38": (ENGINE_A, "exploration",
             "Single-run worlds with the object size limit drawn around real object sizes (L-1, L, L+1 of HTTPS TA certificates and of the largest object per RRDP repository; disabled; default), responses with and without Content-Length and with small chunk sizes; payload must equal the model (object used iff size <= L or limit disabled; oversize RRDP object fails the repository update and the fallback policy applies).",
             "rsync --max-size is not exercised (the fake rsync is configured through rsync-args).",
